@@ -12,6 +12,7 @@ for s in $seeds; do
   rc=$?
   git -C /repo checkout -- .
   fails=$(echo "$out" | grep -E "failed obligation|UNSUPPORTED|CHECK-ERROR" | head -4 | sed 's/^ *//' | cut -c1-220)
-  if [ $rc -ne 0 ]; then echo "$s: DETECTED by $prop"; echo "$fails" | sed 's/^/      /'; else echo "$s: MISSED by $prop"; fi
+  nconf=$(echo "$out" | grep "^VIOLATION" | grep -vc "no-failing-input-found")
+  if [ $rc -ne 0 ]; then echo "$s: DETECTED by $prop (violations replayed on the real code and confirmed: $nconf)"; echo "$fails" | sed 's/^/      /'; else echo "$s: MISSED by $prop"; fi
 done
 rm -rf /tmp/seedrun
